@@ -43,33 +43,31 @@ func ZZRequestAnswered() {
 			total -= held[0]
 			held = held[1:]
 		}
-		// grants for queued requests arrive on notifyC (the data echoed is the step of the request)
-		for {
-			got := -1
-			select {
-			case k := <-notifyC:
-				got = k
-			default:
+		// grants for queued requests arrive on notifyC (the data echoed is the step of the request);
+		// the manager may deliver one between two Stats calls, so settle a few rounds
+		st := m.Stats()
+		for tries := 0; tries < 4; tries++ {
+			for {
+				got := -1
+				select {
+				case k := <-notifyC:
+					got = k
+				default:
+				}
+				if got < 0 {
+					break
+				}
+				held = append(held, amounts[got])
+				total += amounts[got]
 			}
-			if got < 0 {
+			st = m.Stats()
+			if st.AllocatedSize == total {
 				break
 			}
-			held = append(held, amounts[got])
-			total += amounts[got]
 		}
-		st := m.Stats()
 		vrt.Assert(st.AllocatedSize >= 0 && st.AllocatedSize <= limit, "allocated size outside [0, limit]")
 		vrt.Assert(st.AllocatedObjects >= 0, "negative object count")
 		// reservations balance: what the manager has booked is exactly what requesters were told they hold
-		// (a grant may still be in flight to notifyC: then the manager has booked it already)
-		vrt.Assert(st.AllocatedSize >= total, "allocated size smaller than what was granted")
-		if st.AllocatedSize != total {
-			k, more := <-notifyC, true
-			_ = more
-			held = append(held, amounts[k])
-			total += amounts[k]
-			st = m.Stats()
-		}
 		vrt.Assert(st.AllocatedSize == total, "manager booked a reservation no requester was told about (leak)")
 	}
 	m.Close()
